@@ -82,12 +82,20 @@ def get_yaml_default_loader():
     return yaml_default_loader
 
 
-def has_recursive_alias(value, ancestors=()) -> bool:
-    if isinstance(value, (dict, list)):
-        if id(value) in ancestors:
-            return True
-        ancestors = ancestors + (id(value),)
-        return any(has_recursive_alias(v, ancestors) for v in (value.values() if isinstance(value, dict) else value))
+def has_recursive_alias(value) -> bool:
+    # iterative depth-first walk, so that the nesting depth of a value is not limited by the recursion limit
+    ancestors: Set[int] = set()
+    stack = [(value, False)]
+    while stack:
+        node, leave = stack.pop()
+        if leave:
+            ancestors.discard(id(node))
+        elif isinstance(node, (dict, list)):
+            if id(node) in ancestors:
+                return True
+            ancestors.add(id(node))
+            stack.append((node, True))
+            stack.extend((v, False) for v in (node.values() if isinstance(node, dict) else node))
     return False
 
 
